@@ -1,11 +1,13 @@
 package checks
 
 import (
+	"bytes"
 	"fmt"
 	"strconv"
 
 	"verif/internal/bind"
 	"verif/internal/gen"
+	"verif/internal/mon"
 	"verif/internal/ref"
 	"verif/internal/run"
 )
@@ -198,7 +200,24 @@ func c03Try(c *run.Ctx, a *ref.Packet, variant, part string) {
 		return replayDetail(a, frame, map[string]interface{}{"variant": variant})
 	}
 	c.CurrentBytes("ReadPacket", frame)
-	res := libRead(frame)
+	var res mon.ReadResult
+	if len(frame) < 4096 && run.HashBytes(3, frame)%4 == 0 {
+		// the frame arrives twice on one connection: both must decode, and alike
+		rd := bytes.NewReader(append(append([]byte(nil), frame...), frame...))
+		res = mon.Read(rd)
+		res2 := mon.Read(rd)
+		c.Eval(1)
+		c.Count("variants", "twice-in-one-stream", 1)
+		if res.Accepted() && res2.Panic == nil {
+			iso := isolated{Accepted: true, Snap: model, FromRef: true}
+			if ok, why := sameOutcome(iso, res2); !ok {
+				c.Violation("C03/second-in-stream/"+T, "the same valid frame sent twice on one stream ("+variant+"): second read "+why, det())
+				return
+			}
+		}
+	} else {
+		res = libRead(frame)
+	}
 	c.Eval(1)
 	switch {
 	case res.Panic != nil:
